@@ -25,7 +25,7 @@ from .monitor import Monitor, short
 NSHARDS = int(os.environ.get("XGIMON_SHARDS", "16"))
 
 
-class Watchdog(Exception):
+class Watchdog(BaseException):  # BaseException: must not be swallowed by "except Exception" around client calls
     pass
 
 
